@@ -25,6 +25,7 @@ from easynetwork.lowlevel._stream import StreamDataProducer
 from easynetwork.protocol import StreamProtocol
 from easynetwork.serializers import StringLineSerializer
 
+from vlib import netutil  # noqa: E402
 from vlib import memtransport, tlspeer, vloop
 
 PROPERTY = "C14"
@@ -82,14 +83,7 @@ class Scen:
 
 
 def _dummy_pair():
-    srv = socket.socket()
-    srv.bind(("127.0.0.1", 0))
-    srv.listen(1)
-    c = socket.socket()
-    c.connect(srv.getsockname())
-    s, _ = srv.accept()
-    srv.close()
-    return c, s
+    return netutil.tcp_pair(nodelay=False)
 
 
 # ------------------------------------------------------------------------------------------ scenario builders
